@@ -20,9 +20,9 @@ FOREIGN = re.compile(r"^(sval::|sval_ref::|core::fmt::|serde::|core::error::Erro
 ALLOW = {
     (r"<emit_otlp::data::Json as emit_otlp::data::RawEncoder>::encode$", "call:expect"):
         (1, "sval_json fails only if a Display/Value impl reports an error its writer did not produce (fmt contract)"),
-    (r"<emit_otlp::data::Proto as emit_otlp::data::RawEncoder>::encode::\{closure#0\}$", "call:unwrap"):
+    (r"<emit_otlp::data::Proto as emit_otlp::data::RawEncoder>::encode::\{closure#\d+\}$", "call:unwrap"):
         (1, "protobuf encoding into memory is infallible; fails only if a Value impl invents an error"),
-    (r"<emit_otlp::data::Proto as emit_otlp::data::RawEncoder>::encode::\{closure#0\}$", "assert:overflow:Add"):
+    (r"<emit_otlp::data::Proto as emit_otlp::data::RawEncoder>::encode::\{closure#\d+\}$", "assert:overflow:Add"):
         (1, "per-thread counter of encoded payloads (usize)"),
     (r"RawPointSet<'a, A> as emit_otlp::data::metrics::DataPointBuilder>::into_points$", "index:slice"):
         (2, "slices of the collected points bounded by their own length (read with the code)"),
